@@ -608,7 +608,14 @@ def _candidate_defuse(ctx, chk):
             [g.iter for n in ast.walk(ms.node) if isinstance(n, (ast.GeneratorExp, ast.ListComp, ast.SetComp)) for g in n.generators]
     for it in iters:
         if msflow.reaches(it, inter):
-            cand_ok = "nonzero" in ast.unparse(msflow.expand(it)) or "where" in ast.unparse(msflow.expand(it))
+            ex_ = msflow.expand(it)
+            txt_ = ast.unparse(ex_)
+            as_positions = any(k_ in txt_ for k_ in ("nonzero", "where(", "argwhere"))
+            # or the overlap used directly as a boolean mask: INDICES[...][overlap]
+            as_mask = any(isinstance(n_, ast.Subscript) and isinstance(n_.slice, ast.BinOp) and isinstance(n_.slice.op, ast.BitAnd)
+                          and ast.dump(n_.slice) == ast.dump(msflow.expand(inter)) for n_ in ast.walk(ex_))
+            if as_positions or as_mask:
+                cand_ok = True
     if cand_ok is None:
         chk.indeterminate("C01.O5", where_of(ms, inter), "no loop over the storms selected by the overlap found in match_storms")
     else:
